@@ -3,7 +3,10 @@
 package rep
 
 import (
+	"encoding/json"
 	"fmt"
+	"net/url"
+	"regexp"
 	"sort"
 	"strconv"
 	"strings"
@@ -87,7 +90,7 @@ func GenConf(t *rapid.T, p *gen.Prof, formats []string) Conf {
 
 func GenCase(t *rapid.T) *ReportCase {
 	p := GenProfile(t, ProfOpts)
-	return &ReportCase{P: p, C: GenConf(t, p, []string{"top", "text", "tree", "traces", "dot", "topproto", "peek"})}
+	return &ReportCase{P: p, C: GenConf(t, p, []string{"top", "text", "tree", "traces", "dot", "topproto", "peek", "callgrind", "webtop"})}
 }
 
 // ResolveIndex implements the documented sample_index selection.
@@ -197,12 +200,15 @@ func CheckReport(gp *gen.Prof, c Conf, o *vk.Obs) []string {
 		return []string{"harness: bad sample index"}
 	}
 	Classify(p, c, o, idx)
+	mName := model.BuildReport(p, c.Model(idx, true))
+	mFine := model.BuildReport(p, c.Model(idx, false))
+	if c.Format == "webtop" {
+		return checkWebTop(p, c, mName, mFine)
+	}
 	res := pp.Run(pp.Req{Flags: c.Flags(), Args: []string{"src"}, Sources: map[string]*pp.Source{"src": {Prof: p}}})
 	if res.Panic != "" {
 		return []string{"pprof panicked: " + res.Panic}
 	}
-	mName := model.BuildReport(p, c.Model(idx, true))
-	mFine := model.BuildReport(p, c.Model(idx, false))
 	if res.Err != nil {
 		// legitimate refusals: nothing to report on
 		msg := res.Err.Error()
@@ -319,6 +325,10 @@ func CheckReport(gp *gen.Prof, c Conf, o *vk.Obs) []string {
 		if fmt.Sprint(got) != fmt.Sprint(w1) && fmt.Sprint(got) != fmt.Sprint(w2) {
 			e.Addf("-topproto flat/cum pairs differ: want %v got %v", w2, got)
 		}
+	case "callgrind":
+		for _, m := range CheckCallgrind(out, p, c, idx) {
+			e.Addf("%s", m)
+		}
 	case "dot":
 		rows, edges, lg, err := DotRows(out)
 		if err != nil {
@@ -410,4 +420,128 @@ func DotRows(out string) ([]model.Row, []model.EdgeRow, *model.Legend, error) {
 		edges = append(edges, model.EdgeRow{From: from, To: to, W: int64(w)})
 	}
 	return rows, edges, lg, nil
+}
+
+var cgSuffix = regexp.MustCompile(` \[\d+/\d+\]$`)
+
+// CheckCallgrind compares the cost lines and the call costs of -callgrind output with the reference
+// report at address granularity (callgrind output is per address and line).
+func CheckCallgrind(out string, p *profile.Profile, c Conf, idx int) []string {
+	var e vk.Errs
+	cg, err := model.ParseCallgrind(out)
+	if err != nil {
+		return []string{"-callgrind output violates the format: " + err.Error()}
+	}
+	mc := c.Model(idx, false)
+	mc.Gran, mc.ObjNames = "addresses", true
+	mc.CallTree = c.CallTree
+	m := model.BuildReport(p, mc)
+	oneLine := strings.NewReplacer("\n", " ", "\r", " ")
+	var want, got, wantCalls, gotCalls []string
+	for _, en := range m.Entries {
+		if en.Flat.V == 0 && en.Cum.V == 0 {
+			continue
+		}
+		want = append(want, fmt.Sprintf("%q %q @%x:%d =%d", oneLine.Replace(en.F.Name), oneLine.Replace(en.F.File), en.F.Addr, en.F.Line, en.Flat.Val()))
+	}
+	for k, a := range m.Edges {
+		from, to := m.Entries[k[0]], m.Entries[k[1]]
+		if from.Flat.V == 0 && from.Cum.V == 0 || to.Flat.V == 0 && to.Cum.V == 0 {
+			continue
+		}
+		wantCalls = append(wantCalls, fmt.Sprintf("%q@%x:%d -> %q = %d", oneLine.Replace(from.F.Name), from.F.Addr, from.F.Line, oneLine.Replace(to.F.Name), a.Val()))
+	}
+	for _, r := range cg.Records {
+		if r.Fn == "" && r.File == "" && r.Cost == 0 && r.Addr == 0 && len(r.Calls) == 0 {
+			continue
+		}
+		got = append(got, fmt.Sprintf("%q %q @%x:%d =%d", r.Fn, r.File, r.Addr, r.Line, r.Cost))
+		for _, cl := range r.Calls {
+			gotCalls = append(gotCalls, fmt.Sprintf("%q@%x:%d -> %q = %d", r.Fn, r.Addr, r.Line, cgSuffix.ReplaceAllString(cl.Fn, ""), cl.Cost))
+		}
+	}
+	sort.Strings(want)
+	sort.Strings(got)
+	sort.Strings(wantCalls)
+	sort.Strings(gotCalls)
+	if strings.Join(want, "|") != strings.Join(got, "|") {
+		e.Addf("-callgrind functions/positions/costs differ from the report:\n   want %v\n   got  %v", want, got)
+	}
+	if strings.Join(wantCalls, "|") != strings.Join(gotCalls, "|") {
+		e.Addf("-callgrind call costs differ from the edge weights of the report:\n   want %v\n   got  %v", wantCalls, gotCalls)
+	}
+	return e
+}
+
+// checkWebTop reads the table data of the web UI's /top page (options given as URL parameters where the
+// web UI has one, as start-up flags otherwise) and compares it with the reference report.
+func checkWebTop(p *profile.Profile, c Conf, mName, mFine *model.MReport) []string {
+	var e vk.Errs
+	fl := map[string]string{"trim": "false", "tagroot": strings.Join(c.TagRoot, ","), "tagleaf": strings.Join(c.TagLeaf, ",")}
+	w, err := pp.StartWeb(pp.Req{Flags: fl, Args: []string{"src"}, Sources: map[string]*pp.Source{"src": {Prof: p}}})
+	if err != nil {
+		return []string{"web interface did not start: " + err.Error()}
+	}
+	defer w.Close()
+	q := url.Values{}
+	q.Set("g", c.Gran)
+	if c.NoInlines {
+		q.Set("noinlines", "t")
+	}
+	if c.ShowColumns {
+		q.Set("showcolumns", "t")
+	}
+	if c.SampleIndex != "" {
+		q.Set("si", c.SampleIndex)
+	}
+	if c.Mean {
+		q.Set("mean", "t")
+	}
+	if c.CallTree {
+		q.Set("calltree", "t")
+	}
+	code, body, _, pan := w.Get("/top?" + q.Encode())
+	if pan != "" {
+		return []string{"/top handler panicked: " + pan}
+	}
+	if code != 200 {
+		if len(mName.Rows()) == 0 {
+			return nil
+		}
+		e.Addf("/top?%s answered %d: %.300s", q.Encode(), code, body)
+		return e
+	}
+	i := strings.LastIndex(body, "makeTopTable(")
+	if i < 0 {
+		return []string{"/top page has no makeTopTable(...) call"}
+	}
+	rest := body[i+len("makeTopTable("):]
+	j := strings.Index(rest, ");")
+	k := strings.Index(rest, ",")
+	if j < 0 || k < 0 || k > j {
+		return []string{"/top page: cannot delimit the makeTopTable arguments"}
+	}
+	total, err := strconv.ParseInt(strings.TrimSpace(rest[:k]), 10, 64)
+	if err != nil {
+		return []string{"/top page: total is not a number: " + rest[:k]}
+	}
+	var items []struct {
+		Name      string
+		Flat, Cum int64
+	}
+	if err := json.Unmarshal([]byte(rest[k+1:j]), &items); err != nil {
+		return []string{"/top page: table data is not JSON: " + err.Error()}
+	}
+	var got []model.Row
+	for _, it := range items {
+		got = append(got, model.Row{Name: it.Name, Flat: it.Flat, Cum: it.Cum})
+	}
+	model.SortRows(got)
+	if !rowsEq(mName.Rows(), got) && !rowsEq(mFine.Rows(), got) {
+		e.Addf("web /top: flat/cum differ from their definition (granularity %s):%s", c.Gran, diffRows(mFine.Rows(), got))
+	}
+	if total != mFine.Total {
+		e.Addf("web /top: total %d differs from the sum of absolute sample values %d", total, mFine.Total)
+	}
+	return e
 }
